@@ -414,6 +414,9 @@ def eq(I, a, b):
     if isinstance(a, SymArr) or isinstance(b, SymArr):
         from . import nplib
         return nplib.arr_compare(I, "==", a, b)
+    from .nplib import DType
+    if isinstance(a, DType) and isinstance(b, DType):
+        return a.name == b.name
     # different kinds
     return False
 
